@@ -509,7 +509,7 @@ func main() {
 	}
 	os.Remove(bfsFile)
 	r.Set("distinct_nontrivial", len(res.Sets["poolstates"]))
-	r.Set("rule", "layer 1: every op sequence up to the length bound in two placements (locals of main; package-level variables with one Eval per op), no de-duplication; layer 2: BFS over the native reference model with alias-aware canonical states, one shortest history per new state replayed on the interpreter; distinct_nontrivial = distinct whole-pool lines observed")
+	r.Set("rule", "op alphabet incl. parallel assignments whose right-hand operands are read through dereferences / pointer-reached fields and elements / converted, sliced and asserted operands; layer 1: every op sequence up to the length bound in two placements (locals of main; package-level variables with one Eval per op), no de-duplication; layer 2: BFS over the native reference model with alias-aware canonical states, one shortest history per new state replayed on the interpreter; distinct_nontrivial = distinct whole-pool lines observed")
 
 	// ---- attribution to minimal failing sub-histories (the space is closed under deleting an op)
 	failing := map[string]bool{}
